@@ -571,6 +571,23 @@ m("benign-total-len-via-iter", "C09", "nomt/src/rollback/mod.rs",
   "    fn total_len(&self) -> usize {\n        self.log.iter().count()",
   None)
 
+# ---- C12 / C11 G2: the handle is only locked and read before the refusal guards ----
+m("c12-cache-evicted-before-root-check", "C12", "nomt/src/lib.rs",
+  "        let _write_guard = self.take_global_guard.then(|| nomt.access_lock.write());\n\n        {\n            let mut shared = nomt.shared.lock();\n            if shared.root != self.prev_root {",
+  "        let _write_guard = self.take_global_guard.then(|| nomt.access_lock.write());\n        nomt.page_cache.evict();\n\n        {\n            let mut shared = nomt.shared.lock();\n            if shared.root != self.prev_root {",
+  "G2|FinishedSession::commit|call=page_cache::PageCache::evict")
+m("c12-overlay-pages-cached-before-root-check", "C12", "nomt/src/lib.rs",
+  "        let rollback_delta = self.rollback_delta().map(|delta| delta.clone());\n\n        let _write_guard = nomt.access_lock.write();\n",
+  "        let rollback_delta = self.rollback_delta().map(|delta| delta.clone());\n\n        let _write_guard = nomt.access_lock.write();\n        nomt.page_cache.batch_update(Vec::new());\n",
+  "G2|overlay::Overlay::commit|call=page_cache::PageCache::batch_update")
+m("c12-poisoned-flag-touched-before-check", "C12", "nomt/src/lib.rs",
+  "        // The previous root must be checked before the rollback delta is recorded: a stale\n",
+  "        nomt.store.poison();\n        // The previous root must be checked before the rollback delta is recorded: a stale\n",
+  "G2|FinishedSession::try_commit_nonblocking|call=store::Store::poison")
+m("benign-read-metrics-before-root-check", "C12", "nomt/src/lib.rs",
+  "        let _write_guard = self.take_global_guard.then(|| nomt.access_lock.write());\n\n        {\n            let mut shared = nomt.shared.lock();\n            if shared.root != self.prev_root {",
+  "        let _write_guard = self.take_global_guard.then(|| nomt.access_lock.write());\n        let _cached = nomt.page_cache.get(nomt_core::page_id::ROOT_PAGE_ID).is_some();\n        let _poisoned = nomt.store.is_poisoned();\n\n        {\n            let mut shared = nomt.shared.lock();\n            if shared.root != self.prev_root {",
+  None)
 # ---- C11 S2 merge frontier (elided subtree reconstruction under an overlay chain) ----
 m("c11-merge-tail-dropped", "C11", "nomt/src/merkle/seek.rs",
   "            final_leaf_data_collection.extend_from_slice(&collected_leaf_data[beatree_leaf_idx..]);",
